@@ -41,12 +41,13 @@ import (
 // ---------------------------------------------------------------- scripted next hops
 
 type c19mxSess struct {
-	be     *c19mxBackend
-	remote string
-	conn   *smtp.Conn
-	closed bool
-	rsets  int
-	rcpts  []string
+	be      *c19mxBackend
+	remote  string
+	conn    *smtp.Conn
+	closed  bool
+	claimed bool // matched with a connection object of the client side
+	rsets   int
+	rcpts   []string
 }
 
 type c19mxBackend struct {
@@ -152,7 +153,9 @@ func (e *c19mxEnv) find(local string) *c19mxSess {
 	for _, b := range e.bes {
 		b.mu.Lock()
 		for _, s := range b.sessions {
-			if s.remote == local {
+			// (the system hands the local port of a closed connection out again)
+			if s.remote == local && !s.claimed && !s.closed {
+				s.claimed = true
 				b.mu.Unlock()
 				return s
 			}
@@ -197,6 +200,54 @@ type c19mxOpen struct {
 
 var c19mxSlow int32 // cases in which connections stayed open past the patience
 
+// c19mxRec buffers the output of one case: it is written out only when the case came back (the code under
+// test may block for ever; the goroutine of such a case is abandoned and must not write any more).
+type c19mxRec struct {
+	emit []func(*vh.Out)
+	at   atomic.Value // the operation being executed (string)
+}
+
+func (r *c19mxRec) Stat(k string) { r.emit = append(r.emit, func(o *vh.Out) { o.Stat(k) }) }
+func (r *c19mxRec) Corr(op, obs string) {
+	r.emit = append(r.emit, func(o *vh.Out) { o.Corr(op, obs) })
+}
+func (r *c19mxRec) Violation(sig, op, detail string) {
+	r.emit = append(r.emit, func(o *vh.Out) { o.Violation(sig, op, detail) })
+}
+
+var c19mxStuck int32 // cases that did not come back
+
+// c19mxGuard runs one case with a watchdog.
+func c19mxGuard(out *vh.Out, op string, f func(rec *c19mxRec)) {
+	if atomic.LoadInt32(&c19mxStuck) >= 3 {
+		out.Stat("mx.case skipped: the code under test blocked in 3 cases")
+		return
+	}
+	patience := 30 * time.Second
+	if atomic.LoadInt32(&c19mxStuck) >= 1 {
+		patience = 3 * time.Second
+	}
+	rec := &c19mxRec{}
+	rec.at.Store("-")
+	done := make(chan struct{})
+	vcoop.SetManual(true, time.Now().Truncate(time.Second))
+	go func() {
+		defer close(done)
+		f(rec)
+	}()
+	select {
+	case <-done:
+		for _, e := range rec.emit {
+			e(out)
+		}
+	case <-time.After(patience):
+		atomic.AddInt32(&c19mxStuck, 1)
+		out.Violation("C19/blocked", op, fmt.Sprintf("operation %v of the history did not return within %v", rec.at.Load(), patience))
+		out.Stat("mx.case abandoned: blocked")
+	}
+	vcoop.SetManual(false, time.Time{})
+}
+
 func c19mxTarget(env *c19mxEnv, cs *c19mxCase) *Target {
 	zones := map[string]mockdns.Zone{}
 	for k := 0; k < c19mxDomains; k++ {
@@ -226,9 +277,11 @@ func c19mxOp(cs *c19mxCase) string {
 }
 
 func c19mxRun(env *c19mxEnv, cs *c19mxCase, out *vh.Out) {
+	c19mxGuard(out, c19mxOp(cs), func(rec *c19mxRec) { c19mxRun1(env, cs, rec) })
+}
+
+func c19mxRun1(env *c19mxEnv, cs *c19mxCase, out *c19mxRec) {
 	env.reset()
-	vcoop.SetManual(true, time.Now().Truncate(time.Second))
-	defer vcoop.SetManual(false, time.Time{})
 	tgt := c19mxTarget(env, cs)
 	ctx := context.Background()
 	op := c19mxOp(cs)
@@ -366,7 +419,8 @@ func c19mxRun(env *c19mxEnv, cs *c19mxCase, out *vh.Out) {
 				violate("C19/panic", fmt.Sprintf("the code under test panicked: %v", p))
 			}
 		}()
-		for _, o := range cs.ops {
+		for i, o := range cs.ops {
+			out.at.Store(fmt.Sprintf("%d (%s)", i, o))
 			step(o)
 		}
 	}()
@@ -384,7 +438,7 @@ func c19mxRun(env *c19mxEnv, cs *c19mxCase, out *vh.Out) {
 		return
 	}
 	// ---- quiescence: the `go conn.Close()` goroutines of the pool finish; what is open now stays open ----
-	patience := 10 * time.Second
+	patience := 25 * time.Second
 	if atomic.LoadInt32(&c19mxSlow) >= 2 {
 		patience = time.Second
 	}
@@ -676,6 +730,10 @@ func TestVerifC19Mx(t *testing.T) {
 // whether it is usable, as remoteDelivery.Close does: the answer must not move the idle stamp (in the model
 // Usable() cannot: C19_usable_keeps_idle_stamp).
 func c19mxUsable(env *c19mxEnv, line string, out *vh.Out) {
+	c19mxGuard(out, line, func(rec *c19mxRec) { c19mxUsable1(env, line, rec) })
+}
+
+func c19mxUsable1(env *c19mxEnv, line string, out *c19mxRec) {
 	f := strings.Fields(line)
 	if len(f) != 4 {
 		return
@@ -683,8 +741,6 @@ func c19mxUsable(env *c19mxEnv, line string, out *vh.Out) {
 	l, _ := strconv.Atoi(f[2])
 	d, _ := strconv.Atoi(f[3])
 	env.reset()
-	vcoop.SetManual(true, time.Now().Truncate(time.Second))
-	defer vcoop.SetManual(false, time.Time{})
 	tgt := c19mxTarget(env, &c19mxCase{maxKeys: 5000, maxConns: 5, maxLife: int64(l), stale: 300})
 	defer tgt.Close()
 	ctx := context.Background()
